@@ -63,6 +63,13 @@ class Chooser:
 _TASK: Optional[Callable[[Any], Any]] = None
 
 
+def _worker_init() -> None:
+    # everything inherited from the parent (frontier lists, seen sets) is immortal in the worker: the per-execution
+    # gc.collect() then only looks at what the execution itself allocated
+    import gc
+    gc.freeze()
+
+
 def _call(arg: Any) -> Any:
     assert _TASK is not None
     return _TASK(arg)
@@ -81,7 +88,7 @@ def pmap(fn: Callable[[Any], Any], items: Sequence[Any], chunk: Optional[int] = 
         ctx = mp.get_context("fork")
         if chunk is None:
             chunk = max(1, min(2000, len(items) // (n * 8)))
-        with ctx.Pool(n) as pool:
+        with ctx.Pool(n, initializer=_worker_init) as pool:
             return pool.map(_call, items, chunksize=chunk)
     finally:
         _TASK = None
@@ -99,7 +106,7 @@ def pmap_iter(fn: Callable[[Any], Any], items: Iterable[Any], chunk: int = 256, 
     _TASK = fn
     try:
         ctx = mp.get_context("fork")
-        with ctx.Pool(n) as pool:
+        with ctx.Pool(n, initializer=_worker_init) as pool:
             for r in pool.imap(_call, items, chunksize=chunk):
                 yield r
     finally:
@@ -247,7 +254,8 @@ StepFn = Callable[[Tuple[Any, ...]], Tuple[Optional[Dict[str, Any]], Any, int]]
 
 def bfs_histories(step: StepFn, alphabet: Sequence[Any], depth: int, stats: Stats, scenario: str,
                   dedup: bool = True, enabled: Optional[Callable[[Tuple[Any, ...], Any], bool]] = None,
-                  max_states: Optional[int] = None, level_log: Optional[List[Dict[str, int]]] = None
+                  max_states: Optional[int] = None, level_log: Optional[List[Dict[str, int]]] = None,
+                  state_oracle: Optional[Callable[[Tuple[Any, ...]], Tuple[Optional[Dict[str, Any]], int]]] = None
                   ) -> Dict[int, set]:
     """Level-synchronous BFS.  A state is the (shortest, first in alphabet order) history reaching it.
 
@@ -263,6 +271,12 @@ def bfs_histories(step: StepFn, alphabet: Sequence[Any], depth: int, stats: Stat
         stats.violations.append(Violation(root[0]["what"], dict(root[0].get("replay", {}), scenario=scenario,
                                                                 history=[]), root[0].get("signature")))
     seen.add(digest(root[1]))
+    if state_oracle is not None:
+        v0, ev0 = state_oracle(())
+        stats.transitions += ev0
+        if v0 is not None:
+            stats.violations.append(Violation(v0["what"], dict(v0.get("replay", {}), scenario=scenario, history=[]),
+                                              v0.get("signature")))
     stats.states += 1
     stats.executions += 1
     for lvl in range(1, depth + 1):
@@ -288,6 +302,20 @@ def bfs_histories(step: StepFn, alphabet: Sequence[Any], depth: int, stats: Stat
                     continue
                 seen.add(d)
             nxt.append(h)
+        if state_oracle is not None and nxt:
+            # state-based oracle: evaluated once per *new* canonical state (one representative history)
+            keep = []
+            for h, (verdict, evals) in zip(nxt, pmap(state_oracle, nxt)):
+                stats.transitions += evals
+                stats.notes["oracle_evaluations"] = stats.notes.get("oracle_evaluations", 0) + evals
+                if verdict is not None:
+                    viol_here += 1
+                    stats.violations.append(Violation(verdict["what"], dict(verdict.get("replay", {}),
+                                                                            scenario=scenario, history=list(h)),
+                                                      verdict.get("signature")))
+                else:
+                    keep.append(h)
+            nxt = keep
         stats.states += len(nxt) if dedup else len(lvl_set)
         per_level[lvl] = lvl_set
         if level_log is not None:
